@@ -23,6 +23,7 @@ type c12Scenario struct {
 	Dawdle    int        `json:"handler_dawdle"`
 	Preset    int        `json:"preset"`
 	BlockNs   int64      `json:"event_callback_blocks_ns"`
+	AppSends  int        `json:"application_sends_around_the_cut"`
 }
 
 func netModes(g G, e *Engine) (int, int64) {
@@ -64,7 +65,9 @@ func runC12(e *Engine, g G, o RunOpt) RunInfo {
 	default:
 		n = g.Range("n", 0, 5)
 	}
-	sc.Inbound = GenInbound(g, n, InboundOpts{AllowSpace: true, AllowEntity: true, AllowNested: true, IDPrefix: "in", AllowBig: sc.Preset == 1, AllowR: true})
+	sc.AppSends = []int{0, 0, 2, 5}[g.N("appsends", 4)]
+	sc.Inbound = GenInbound(g, n, InboundOpts{AllowSpace: true, AllowEntity: true, AllowNested: true, IDPrefix: "in", AllowBig: sc.Preset == 1, AllowR: true,
+		AllowA: sc.Client.SM && sc.AppSends > 0, MaxA: 2})
 	var total int64
 	if n > 0 {
 		total = sc.Inbound[n-1].End
@@ -92,6 +95,7 @@ func runC12(e *Engine, g G, o RunOpt) RunInfo {
 	w.Dawdle = sc.Dawdle
 	w.CatchAll()
 	kaDuringCallback := -1
+	appSendsReturned := -1
 
 	established := false
 	cutDelivered := false
@@ -140,6 +144,21 @@ func runC12(e *Engine, g G, o RunOpt) RunInfo {
 		if sc.CutKind != "silent" {
 			cli.CutAt = cut
 		}
+		sendsReturned := 0
+		if sc.AppSends > 0 {
+			// the application keeps sending while the connection dies: some of these writes fail
+			e.Go("app-sender", func() {
+				for i := 0; i < sc.AppSends; i++ {
+					id := fmt.Sprintf("app%d", i+1)
+					e.Call("SendRaw "+id, func() error {
+						return w.Client.SendRaw(fmt.Sprintf("<message id='%s' to='peer@%s'><body>from the application</body></message>", id, SimDomain))
+					})
+					sendsReturned++
+					e.Sleep(time.Duration(1+i)*time.Millisecond + 3*time.Microsecond)
+				}
+			})
+		}
+		defer func() { appSendsReturned = sendsReturned }()
 		var all strings.Builder
 		for _, el := range sc.Inbound {
 			all.WriteString(el.Raw)
@@ -240,6 +259,12 @@ func runC12(e *Engine, g G, o RunOpt) RunInfo {
 		if !o.Avoiding("inbound-counts-nonstanza") && int(ev.Inbound) != complete {
 			e.Violate("C12", "event-smstate-inbound", "Disconnected event carries inbound count %d, %d stanzas were completely received", ev.Inbound, complete)
 		}
+	}
+	if sc.AppSends > 0 && appSendsReturned >= 0 && appSendsReturned != sc.AppSends {
+		e.Violate("C12", "send-never-returned", "%d of %d application sends issued around the loss never returned (blocked tasks: %v)", sc.AppSends-appSendsReturned, sc.AppSends, e.BlockedTasks())
+	}
+	if sc.AppSends > 0 {
+		e.Probe("c12.application_sends_around_cut")
 	}
 	if kaDuringCallback > 0 {
 		e.Violate("C12", "keepalive-during-disconnected-callback", "%d keepalive writes while the Disconnected callback was running (%v)", kaDuringCallback, time.Duration(sc.BlockNs))
